@@ -275,7 +275,7 @@ def _deps_from_repo():
 
 
 # harness bins needed only by the listed properties (every other bin, and sy / sy-remote, are needed by all)
-BIN_OWNERS = {"h_temp": ("C05", "C09")}
+BIN_OWNERS = {"h_temp": ("C05", "C09"), "h_cache": ("C18",)}
 CURRENT_PID = None
 
 
